@@ -1,7 +1,14 @@
 """C14 — constant and read-only parameters cannot be rebound after construction.
 
 Explicit-state BFS over instance sets (new and identical object), update, class-level sets on the declaring class and a subclass,
-nested / failing edit_constant blocks and per-instance Parameter creation, against a model of the held identities."""
+nested / failing edit_constant blocks and per-instance Parameter creation, against a model of the held identities.
+
+Slices (one BFS each, same oracle):
+  base   B(A) with ordinary (per-instance) Parameters
+  pif    the constants are declared per_instance=False
+  nip    the instance class is decorated with no_instance_params
+  refs   a constant with allow_refs=True and two reference sources: a rejected reference assignment must not install (or replace) a link
+  watch  assignments attempted from inside watcher / depends(watch=True) callbacks, started by a normal set or by param.trigger"""
 from mc.engine import Harness, Result, V
 from mc.heapfp import try_fingerprint
 from mc.world import reset_globals
@@ -11,57 +18,119 @@ class Boom(Exception):
     pass
 
 
+CONSTS = ('c', 'cn', 'cr')
+
+
 class C14(Harness):
     pid = 'C14'
     level = 'model_checking'
     kind = 'bfs'
-    technique = ('explicit-state BFS over assignment / update / class-level set / edit_constant (nested, failing) histories on real objects vs. a '
-                 'model of the identity held by each constant parameter')
-    rule = ('state = (model identities + open edit blocks, heap fingerprint of classes and instances); transition = one operation; after every step the '
-            'object held by c, r, name on both instances and the class defaults are compared by identity with the model, and once no edit block is open every '
+    technique = ('explicit-state BFS over assignment / update / class-level set / edit_constant (nested, failing) / reference / trigger histories on real '
+                 'objects vs. a model of the identity held by each constant parameter')
+    rule = ('state = (model identities + open edit blocks + installed reference links, heap fingerprint of classes and instances); transition = one '
+            'operation; after every step the object held by every constant / read-only parameter on both instances and the class defaults are compared '
+            'by identity with the model, assignments attempted inside watcher callbacks are judged like direct ones, and once no edit block is open every '
             'constant flag on class and instance Parameter objects must be True')
     assumptions = ('two instances of a subclass B(A): one built without, one with constructor arguments; assignments to a constant of the *other* '
-                   'instance while an edit_constant block is open on one instance follow the implementation (the statement does not say whose block counts)',)
+                   'instance while an edit_constant block is open on one instance follow the implementation (the statement does not say whose block counts)',
+                   'a reference link that was installed legitimately (constructor, or inside the own edit_constant block) may propagate source changes '
+                   '(param does that under its own edit_constant); a link whose installation was rejected must never propagate')
     MAXNEST = 2
 
+    def configs(self, tier):
+        return [{'slice': s} for s in ('base', 'pif', 'nip', 'refs', 'watch')]
+
     def bounds(self, tier):
-        return {'depth': 4 if tier == 'quick' else 5, 'nesting': self.MAXNEST}
+        return {'depth': 4 if tier == 'quick' else 5, 'nesting': self.MAXNEST, 'slices': 5}
 
     def depth(self, tier, cfg):
         return 4 if tier == 'quick' else 5
 
-    def fresh(self):
+    def fresh(self, sl):
         import param
         reset_globals()
         objs = {'c0': [0], 'c9': [9], 'n1': [1], 'n2': [2], 'n3': [3]}
-        A = type('A', (param.Parameterized,), {'c': param.Parameter(default=objs['c0'], constant=True), 'r': param.Parameter(default=7, readonly=True),
-                                                 'p': param.Parameter(default=1), 'cn': param.Parameter(default=None, constant=True)})
+        hook = {}                       # the only thing the callbacks close over (cleared before fingerprinting)
+        w = {'param': param, 'objs': objs, 'stack': [], 'attempts': [], 'hook': hook}
+        kw = {'per_instance': False} if sl == 'pif' else {}
+        ns = {'c': param.Parameter(default=objs['c0'], constant=True, **kw), 'r': param.Parameter(default=7, readonly=True, **kw),
+              'p': param.Parameter(default=1), 'cn': param.Parameter(default=None, constant=True, **kw)}
+        if sl == 'refs':
+            ns['cr'] = param.Parameter(default=None, constant=True, allow_refs=True)
+            Src = type('Src', (param.Parameterized,), {'v': param.Parameter(default=None)})
+            w['S'] = Src(v=objs['n1'])
+            w['T'] = Src(v=objs['c9'])
+        if sl == 'watch':
+            def _on_p(self):
+                hook['attempt'](self, 'c', 'n1', 'set')
+            ns['_on_p'] = param.depends('p', watch=True)(_on_p)
+        A = type('A', (param.Parameterized,), ns)
         B = type('B', (A,), {})
+        if sl == 'nip':
+            param.parameterized.no_instance_params(B)
         i0 = B()
-        i1 = B(c=objs['c9'], name='nm')
-        w = {'param': param, 'A': A, 'B': B, 'i': [i0, i1], 'objs': objs, 'stack': []}
+        if sl == 'refs':
+            i1 = B(c=objs['c9'], name='nm', cr=w['S'].param.v)
+        else:
+            i1 = B(c=objs['c9'], name='nm')
+        w.update(A=A, B=B, i=[i0, i1])
         model = {'held': [{'c': 'c0', 'r': 7, 'name': i0.name, 'cn': None}, {'c': 'c9', 'r': 7, 'name': 'nm', 'cn': None}], 'cls': {'A': 'c0', 'B': None}, 'edit': []}
+        if sl == 'refs':
+            model['held'][0]['cr'] = None
+            model['held'][1]['cr'] = 'n1'
+            model['link'] = [None, 'S']
+            model['src'] = {'S': 'n1', 'T': 'c9'}
+        if sl == 'watch':
+            def attempt(inst, n, tok, how):
+                i = 0 if inst is w['i'][0] else 1
+                try:
+                    if how == 'set':
+                        setattr(inst, n, objs[tok])
+                    else:
+                        inst.param.update(**{n: objs[tok]})
+                    w['attempts'].append((i, n, tok, None))
+                except Exception as e:
+                    w['attempts'].append((i, n, tok, e))
+            hook['attempt'] = attempt
+            for inst in (i0, i1):
+                inst.param.watch(lambda ev, inst=inst: hook['attempt'](inst, 'cn', 'n2', 'update'), 'c')
         return w, model
 
-    def enabled(self, model):
+    def enabled(self, model, sl='base'):
         ops = []
         for i in (0, 1):
-            ops += [['iset', i, 'c', 'n1'], ['iset', i, 'c', 'same'], ['iset', i, 'r', 8], ['iset', i, 'name', 'zz'], ['iupdate', i, 'c', 'n2'], ['touch', i, 'c'], ['iset', i, 'cn', 'n1']]
+            if sl == 'refs':
+                ops += [['iset', i, 'cr', 'refS'], ['iset', i, 'cr', 'refT'], ['iset', i, 'cr', 'n1'], ['iset', i, 'cr', 'same'], ['iupdate', i, 'cr', 'refT']]
+            elif sl == 'watch':
+                ops += [['pset', i], ['trigger', i, 'p'], ['trigger', i, 'c'], ['iset', i, 'c', 'n3']]
+            else:
+                ops += [['iset', i, 'c', 'n1'], ['iset', i, 'c', 'same'], ['iset', i, 'r', 8], ['iset', i, 'name', 'zz'], ['iupdate', i, 'c', 'n2'], ['touch', i, 'c'],
+                        ['iset', i, 'cn', 'n1']]
             if len(model['edit']) < self.MAXNEST:
                 ops.append(['open_edit', i])
-        ops += [['cset', 'A', 'c', 'n3'], ['cset', 'B', 'c', 'n3'], ['cset', 'A', 'r', 9], ['cset', 'B', 'r', 9], ['cset', 'A', 'cn', 'n2'], ['cset', 'B', 'cn', 'n2']]
+        if sl == 'base' and len(model['edit']) < self.MAXNEST:
+            ops.append(['open_edit', 'B'])          # class-level block
+        if sl == 'refs':
+            ops += [['src', 'S', 'n2'], ['src', 'S', 'n3'], ['src', 'T', 'n2'], ['src', 'T', 'n3']]
+        elif sl == 'watch':
+            pass
+        else:
+            ops += [['cset', 'A', 'c', 'n3'], ['cset', 'B', 'c', 'n3'], ['cset', 'A', 'r', 9], ['cset', 'B', 'r', 9], ['cset', 'A', 'cn', 'n2'], ['cset', 'B', 'cn', 'n2']]
         if model['edit']:
             ops += [['close'], ['raise']]
         return ops
 
     def execute(self, cfg, history):
-        w, model = self.fresh()
+        sl = cfg.get('slice', 'base')
+        w, model = self.fresh(sl)
         param = w['param']
         objs = w['objs']
         vs = []
         hits = {}
 
         def tokof(o):
+            if o is None:
+                return None
             for k, v in objs.items():
                 if v is o:
                     return k
@@ -71,25 +140,33 @@ class C14(Harness):
             k = op[0]
             exc = None
             expect_exc = None          # None: must succeed; 'TypeError': must raise; 'EITHER'
-            ctx = 'history %r' % (history,)
+            ctx = 'slice %s history %r' % (sl, history)
+            del w['attempts'][:]
+            may_change = {}            # (i, name) -> set of tokens the value may legitimately move to in this step
             try:
                 if k in ('iset', 'iupdate'):
                     i, n, v = op[1], op[2], op[3]
                     inst = w['i'][i]
                     mine_open = i in model['edit']
                     other_open = bool(model['edit']) and not mine_open
-                    if n in ('c', 'cn'):
-                        if v != 'same' and model['held'][i][n] == v:
-                            v = 'same'          # the identical object is already held
-                        val = getattr(inst, n) if v == 'same' else objs[v]
-                        if v == 'same':
-                            expect_exc = None
-                        elif mine_open:
-                            expect_exc = None
-                        elif other_open:
-                            expect_exc = 'EITHER'
+                    isref = isinstance(v, str) and v.startswith('ref')
+                    if n in CONSTS:
+                        target = model['src'][v[3]] if isref else v
+                        same = v == 'same' or model['held'][i][n] == target
+                        if isref:
+                            val = w[v[3]].param.v
+                            # a reference whose current value is the held object: acceptance outside a block follows the implementation
+                            expect_exc = None if mine_open else ('EITHER' if (other_open or same) else 'TypeError')
                         else:
-                            expect_exc = 'TypeError'
+                            if same:
+                                v = 'same'          # the identical object is already held
+                            val = getattr(inst, n) if v == 'same' else objs[v]
+                            if v == 'same' or mine_open:
+                                expect_exc = None
+                            elif other_open:
+                                expect_exc = 'EITHER'
+                            else:
+                                expect_exc = 'TypeError'
                     elif n == 'r':
                         val, expect_exc = v, 'TypeError'
                     else:
@@ -105,7 +182,7 @@ class C14(Harness):
                     expect_exc = 'TypeError' if op[2] == 'r' else None
                     setattr(w[op[1]], op[2], objs[op[3]] if op[2] in ('c', 'cn') else op[3])
                 elif k == 'open_edit':
-                    cm = param.parameterized.edit_constant(w['i'][op[1]])
+                    cm = param.parameterized.edit_constant(w[op[1]] if isinstance(op[1], str) else w['i'][op[1]])
                     cm.__enter__()
                     w['stack'].append(cm)
                 elif k == 'close':
@@ -113,21 +190,44 @@ class C14(Harness):
                 elif k == 'raise':
                     e = Boom('body')
                     w['stack'].pop().__exit__(Boom, e, None)
+                elif k == 'src':
+                    old = model['src'][op[1]]
+                    model['src'][op[1]] = op[2]
+                    for i in (0, 1):
+                        if model['link'][i] in (op[1], '?'):
+                            may_change[(i, 'cr')] = {op[2]}
+                    setattr(w[op[1]], 'v', objs[op[2]])
+                elif k == 'pset':
+                    inst = w['i'][op[1]]
+                    inst.p = 3 - inst.p
+                elif k == 'trigger':
+                    w['i'][op[1]].param.trigger(op[2])
             except Exception as e:
                 exc = e
             # ---- model update + verdict for this step
             if k in ('iset', 'iupdate'):
                 i, n = op[1], op[2]
                 if exc is None:
-                    if n in ('c', 'cn') and v != 'same':
-                        model['held'][i][n] = v
+                    if n in CONSTS:
+                        if isref:
+                            model['held'][i][n] = target
+                            model['link'][i] = v[3] if mine_open else '?'
+                        elif v != 'same':
+                            model['held'][i][n] = v
+                            if n == 'cr':
+                                model['link'][i] = None
+                        elif n == 'cr' and model['link'][i] is not None:
+                            model['link'][i] = '?'
                     if n == 'name':
                         model['held'][i]['name'] = v
                     if n == 'r':
                         model['held'][i]['r'] = v
                 hits['accepted' if exc is None else 'rejected'] = 1
                 if last:
-                    key = dict(op=k, name=n, value='same' if v == 'same' else 'new', inside_own_edit=i in model['edit'], other_edit_open=bool(model['edit']) and i not in model['edit'])
+                    key = dict(op=k, name=n, value='ref' if isref else ('same' if v == 'same' else 'new'), inside_own_edit=i in model['edit'],
+                               other_edit_open=bool(model['edit']) and i not in model['edit'])
+                    if sl != 'base':
+                        key['slice'] = sl
                     if expect_exc == 'TypeError' and exc is None:
                         vs.append(V('rebound-outside-edit', '%s: %s.%s = %r was accepted outside edit_constant' % (ctx, 'i%d' % i, n, v), **key))
                     elif expect_exc == 'TypeError' and not isinstance(exc, TypeError):
@@ -149,17 +249,42 @@ class C14(Harness):
                 if exc is not None and last:
                     vs.append(V('edit-exit-raises', '%s: leaving edit_constant raised %r' % (ctx, exc), op=k))
             elif exc is not None and last:
-                vs.append(V('op-raises', '%s: %r raised %r' % (ctx, op, exc), op=k))
+                vs.append(V('op-raises', '%s: %r raised %r' % (ctx, op, exc), op=k, slice=sl))
+            # ---- assignments attempted inside callbacks (watch slice): judged like direct ones, in the order they happened
+            for (i, n, tok, e) in list(w['attempts']):
+                mine_open = i in model['edit']
+                other_open = bool(model['edit']) and not mine_open
+                same = model['held'][i][n] == tok
+                if e is None:
+                    if not (same or mine_open or other_open) and last:
+                        vs.append(V('rebound-outside-edit', '%s: inside a callback started by %r, i%d.%s = %s was accepted outside edit_constant' % (ctx, op, i, n, tok),
+                                    op=k, name=n, value='new', via='callback', slice=sl))
+                    model['held'][i][n] = tok
+                else:
+                    if last and (same or mine_open):
+                        vs.append(V('legitimate-set-rejected', '%s: inside a callback started by %r, i%d.%s = %s raised %r' % (ctx, op, i, n, tok, e),
+                                    op=k, name=n, via='callback', slice=sl))
+                    elif last and not isinstance(e, TypeError):
+                        vs.append(V('wrong-exception', '%s: inside a callback started by %r, i%d.%s = %s raised %r, not TypeError' % (ctx, op, i, n, tok, e),
+                                    op=k, name=n, via='callback', slice=sl))
+            # values that may legitimately have followed a reference source: adopt what is observed (old or new only)
+            for (i, n), allowed in may_change.items():
+                got = tokof(getattr(w['i'][i], n))
+                if got in allowed:
+                    model['held'][i][n] = got
             if not last:
                 continue
             # ---- state checks
             for i, inst in enumerate(w['i']):
-                for n in ('c', 'r', 'name', 'cn'):
+                for n in sorted(model['held'][i]):
                     got = getattr(inst, n)
                     exp = model['held'][i][n]
-                    ok = (got is (objs[exp] if exp is not None else None)) if n in ('c', 'cn') else (got == exp)
+                    ok = (got is (objs[exp] if exp is not None else None)) if n in CONSTS else (got == exp)
                     if not ok:
-                        vs.append(V('held-object', '%s: i%d.%s holds %s, expected %s' % (ctx, i, n, tokof(got) if n in ('c', 'cn') else got, exp), name=n, op=k))
+                        key = dict(name=n, op=k)
+                        if sl != 'base':
+                            key['slice'] = sl
+                        vs.append(V('held-object', '%s: i%d.%s holds %s, expected %s' % (ctx, i, n, tokof(got) if n in CONSTS else got, exp), **key))
             a_c = model['cls']['A']
             b_c = model['cls']['B'] or a_c
             if w['A'].c is not objs[a_c] or w['B'].c is not objs[b_c]:
@@ -167,20 +292,27 @@ class C14(Harness):
             if w['A'].r != 7 or w['B'].r != 7:
                 vs.append(V('readonly-changed', '%s: read-only class value changed' % ctx, op=k))
             if not model['edit']:
+                names = ('c', 'r', 'name', 'cn', 'cr')
                 for label, K in (('A', w['A']), ('B', w['B'])):
-                    for n in ('c', 'r', 'name'):
+                    for n in names:
+                        if n not in K.param:
+                            continue
                         pobj = K.__dict__.get(n) or K.param[n]
                         if not pobj.constant:
                             vs.append(V('constant-flag', '%s: %s.%s.constant is False with no edit_constant block open' % (ctx, label, n), level='class', name=n, after=k))
                 for i, inst in enumerate(w['i']):
                     for n, pobj in inst._param__private.params.items():
-                        if n in ('c', 'r', 'name') and not pobj.constant:
+                        if n in names and not pobj.constant:
                             vs.append(V('constant-flag', '%s: per-instance Parameter %s of i%d is not constant with no edit_constant block open' % (ctx, n, i),
                                         level='instance', name=n, after=k))
         fp = None
         if not vs:
-            fp = try_fingerprint([('A', w['A']), ('B', w['B']), ('i0', w['i'][0]), ('i1', w['i'][1])], extra=repr(model))
-        nxt = [] if vs else self.enabled(model)
+            roots = [('A', w['A']), ('B', w['B']), ('i0', w['i'][0]), ('i1', w['i'][1])]
+            if sl == 'refs':
+                roots += [('S', w['S']), ('T', w['T'])]
+            w['hook'].clear()
+            fp = try_fingerprint(roots, extra=repr(model))
+        nxt = [] if vs else self.enabled(model, sl)
         return Result(vs[:4], fp=fp, next_ops=nxt, outcome=repr(model['held']), hits=hits)
 
 
